@@ -53,7 +53,7 @@ variable {ok : Sys → Action → Prop} {j0 jo jo' : JobObj} {F0 : Int} {s e w :
 
 /-- the pod behind a task the server shows -/
 theorem PState.pod_of_task (h : PState ok j0 jo F0 e) {n : String} {t : Task} (hl : lookTask e n = some t) :
-    ∃ p ∈ e.pods, p.pod.name = n ∧ podTask p = some t ∧ p.pod.isFinished = true :=
+    ∃ p ∈ e.pods, p.pod.name = n ∧ podTask e.clock p = some t ∧ p.pod.isFinished = true :=
   let ⟨_, _, _, _, p, hp, hn, hpt⟩ := h.task_facts hl
   ⟨p, hp, hn, hpt, h.podsFin p hp⟩
 
@@ -85,7 +85,7 @@ theorem truth_round (orc : String → Outcome) (hb : Busy jo s) (ht : Truth orc 
     · rw [e1]; exact List.mem_append_left _ hp
   -- the task behind a refreshed live ref
   have hliveTask : ∀ r ∈ jo.job.status.tasks, LiveRef r → ∃ t p, lookTask e r.name = some t ∧ p ∈ e.pods ∧
-      p.pod.name = r.name ∧ podTask p = some t ∧ p.pod.isFinished = true ∧ refP e r = getTaskRef (some r) t := by
+      p.pod.name = r.name ∧ podTask e.clock p = some t ∧ p.pod.isFinished = true ∧ refP e r = getTaskRef (some r) t := by
     intro r hr hl
     have hn := ht.noLoss r hr
     obtain ⟨p0, hp0, hn0⟩ := List.mem_map.mp hn
@@ -108,7 +108,7 @@ theorem truth_round (orc : String → Outcome) (hb : Busy jo s) (ht : Truth orc 
   have hextra : ∀ g ∈ jo'.job.status.tasks, ∀ t, g = getTaskRef none t → lookTask w t.name = some t →
       t.name = taskName jo.name e.d.hash jo.job.status.tasks.length →
       g.retryIndex = jo.job.status.tasks.length ∧ g.name = t.name ∧
-      ∃ p ∈ w.pods, p.pod.name = t.name ∧ podTask p = some t := by
+      ∃ p ∈ w.pods, p.pod.name = t.name ∧ podTask w.clock p = some t := by
     intro g hg t hgt hlt htn
     obtain ⟨p, hp, hpt⟩ := lookTask_some hlt
     have hpm := findPod_some hp
@@ -117,9 +117,9 @@ theorem truth_round (orc : String → Outcome) (hb : Busy jo s) (ht : Truth orc 
     rw [h2, htn, hname, hdw] at h1
     exact ⟨((taskName_inj hce.nodash hce.nodash h1).2).symm, h2, p, hpm.1, hpm.2, hpt⟩
   -- a finished pod of `w` that is the pod of a task
-  have hpodRes : ∀ p ∈ w.pods, ∀ t, podTask p = some t → t.ref.finishTimestamp.isSome = true →
+  have hpodRes : ∀ {now : Time}, ∀ p ∈ w.pods, ∀ t, podTask now p = some t → t.ref.finishTimestamp.isSome = true →
       (t.ref.status.result = .succeeded ↔ orc p.pod.name = .succeed) := by
-    intro p hp t hpt htf
+    intro now p hp t hpt htf
     have hfin : p.pod.isFinished = true := by
       cases hx : p.pod.isFinished with
       | true => rfl
